@@ -42,8 +42,9 @@ fn block_entries(big: bool) {
     // (an entry with start == end == 0 is the reader's end-of-block padding convention: excluded here and
     //  recorded in DESIGN.md as D10, seen by reading)
     kani::assume(e0 > 0 && e1 > 0);
-    let r0: u8 = kani::any();
-    kani::assume(r0 != 0 && r0 < 0x80);
+    // the rest field is CONCRETE ('x'): with symbolic rest bytes the position of the terminating NUL is
+    // symbolic and String::from_utf8 runs its validation loop over a symbolic length (did not finish in 40 min)
+    let r0: u8 = b'x';
     let (qs, qe): (u32, u32) = (kani::any(), kani::any());
     kani::assume(qs <= qe);
     let mut b: Vec<u8> = Vec::with_capacity(32);
@@ -97,7 +98,7 @@ fn block_entries(big: bool) {
 // @timeout 2400
 // @mem 24
 // @functions bigbedread::get_block_entries, through BigBedRead<FakeBedRead>
-// @bounds one little-endian block with 2 entries (independent encoder; coordinates full width; rest fields of 1 symbolic ASCII byte and of 0 bytes); arbitrary query
+// @bounds one little-endian block with 2 entries (independent encoder; coordinates full width; rest fields `x` and empty (concrete)); arbitrary query
 // @stubs FakeBedRead implements the public BBIFileRead trait (uncompressed block bytes); alloc::fmt::format -> empty; Vec::push -> grows normally (entries vector starts empty)
 // @assumes entries start-sorted with start <= end and end > 0 (the (0,0) entry is excluded: D10)
 // @cut zlib; more than 2 entries; multi-byte UTF-8 in the rest field
